@@ -2051,17 +2051,63 @@ func RulePU1(c *Ctx) {
 // accessor (`_, err := d.JsonRpcMethodName(); err != nil`) reports other failures under this
 // message and lets the empty parameter through.
 func RuleRP1(c *Ctx) {
-	sc := c.Run.Begin("RP1", "every 'required parameter P not specified' rejection of a directive parameter is guarded by NamedParameter(P) == \"\" for the same P", 5)
+	sc := c.Run.Begin("RP1", "every 'required parameter P not specified' rejection of a directive parameter is guarded by NamedParameter(P) == \"\" for the same P", 1)
 	defer sc.End()
 	named := c.Func("directive", "Directive.NamedParameter")
 	if named == nil {
 		sc.Undecided("anchors", "-", "unresolved anchor: Directive.NamedParameter")
 		return
 	}
+	// reporters: helpers that build the message from the constant and a string parameter
+	// (`missingParameterError(d, "Name")`); reporter -> index of that parameter
+	reporters := map[*types.Func]int{}
+	c.P.Funcs(func(pk *pkgT, fd *ast.FuncDecl) {
+		info := pk.TypesInfo
+		self, _ := info.Defs[fd.Name].(*types.Func)
+		if self == nil {
+			return
+		}
+		uses := false
+		ast.Inspect(fd.Body, func(y ast.Node) bool {
+			if z, ok := y.(*ast.SelectorExpr); ok {
+				if k, ok := info.ObjectOf(z.Sel).(*types.Const); ok && k.Name() == "RequiredParameterNotSpecified" {
+					uses = true
+				}
+			}
+			return true
+		})
+		if !uses {
+			return
+		}
+		pi := 0
+		for _, fl := range fd.Type.Params.List {
+			for _, nm := range fl.Names {
+				o := info.ObjectOf(nm)
+				if b, ok := o.Type().Underlying().(*types.Basic); ok && b.Info()&types.IsString != 0 {
+					used := false
+					ast.Inspect(fd.Body, func(y ast.Node) bool {
+						if id, ok := y.(*ast.Ident); ok && info.ObjectOf(id) == o {
+							used = true
+						}
+						return true
+					})
+					if used {
+						reporters[self] = pi
+					}
+				}
+				pi++
+			}
+		}
+	})
 	n := 0
 	perFn := map[*ast.FuncDecl]int{}
 	c.P.Funcs(func(pk *pkgT, fd *ast.FuncDecl) {
 		info := pk.TypesInfo
+		if self, _ := info.Defs[fd.Name].(*types.Func); self != nil {
+			if _, isRep := reporters[self]; isRep {
+				return
+			}
+		}
 		// only functions that read named parameters at all (the INCLUDE file name, for
 		// instance, is a lexeme, not a named parameter)
 		reads := false
@@ -2100,6 +2146,19 @@ func RuleRP1(c *Ctx) {
 				}
 				return true
 			})
+			// or through a reporter helper with the name as a literal argument
+			if !isReq {
+				ast.Inspect(ret, func(y ast.Node) bool {
+					if call, ok := y.(*ast.CallExpr); ok {
+						if pi, isRep := reporters[Callee(info, call)]; isRep && pi < len(call.Args) {
+							if tv, ok := info.Types[call.Args[pi]]; ok && tv.Value != nil {
+								isReq, lit = true, strings.Trim(tv.Value.ExactString(), "\"")
+							}
+						}
+					}
+					return true
+				})
+			}
 			if !isReq || lit == "" {
 				return true
 			}
